@@ -50,6 +50,17 @@ func TestWorker(t *testing.T) {
 		cases = Gen(job)
 	}
 	outs := RunAll(cases, 16, job.Logs)
+	if len(job.Cases) > 0 {
+		// replay: scenarios that depend on a race inside the product (e.g. which of several back-to-back gossip sends
+		// overlap) do not show it in every run; a cluster replay that saw nothing is repeated up to three more times
+		for i := range outs {
+			for attempt := 0; cases[i].Prop == "C08" && attempt < 3 && len(outs[i].Findings) == 0 && outs[i].Err == ""; attempt++ {
+				again := RunCase(cases[i], job.Logs)
+				again.Trace = append([]string{fmt.Sprintf("(replay attempt %d; earlier attempts showed no violation)", attempt+2)}, again.Trace...)
+				outs[i] = again
+			}
+		}
+	}
 	ob, err := json.Marshal(outs)
 	if err != nil {
 		t.Fatal(err)
